@@ -1,6 +1,7 @@
 package gwsim
 
 import (
+	gcontext "github.com/gorilla/context"
 	"context"
 	"crypto/tls"
 	"fmt"
@@ -126,6 +127,10 @@ func (s *sim) shutdown() {
 		<-s.served
 	}
 	synctest.Wait()
+	// the gateway keeps per-request values in gorilla/context's process-wide map and never clears it
+	// (mux >= 1.6.1 no longer does): every authenticated request, with its connection and through the
+	// server's handler this run's whole chain, would stay reachable for the life of the worker
+	gcontext.Purge(0)
 	s.r.SimTime = int64(time.Since(s.began) / time.Millisecond)
 }
 
